@@ -386,3 +386,47 @@ def nullable_kinds(ctx: Ctx) -> None:
             else:
                 ctx.ok(R, f, f.node, f'kind {k!r}: every return follows a missing-value predicate', key=key)
     ctx.require(n >= 12, 'kind cases')
+
+
+def identity_shortcut_skipna(ctx: Ctx) -> None:
+    R = 'I.equals-identity-shortcut-skipna'
+    ctx.rule(R, 'equals is a content equivalence: with skipna=False two missing values at the same position are not equal, so a container holding NaN does not equal '
+             'its own copy — nor itself. The identity shortcut (`id(other) == id(self)` / `other is self` -> True) of every equals(..., skipna=...) is therefore taken only '
+             'when skipna holds; an unconditional shortcut makes the answer depend on object identity instead of content', floor=7)
+    from sfa.rules.blockrules import _enclosing_ifs
+    prog = ctx.prog
+    n = 0
+    for f in prog.all_funcs():
+        if isinstance(f.node, ast.Lambda) or f.name != 'equals' or 'skipna' not in f.params:
+            continue
+        sn = f.self_name()
+        for r in walk_local(f.node):
+            if not (isinstance(r, ast.Return) and isinstance(r.value, ast.Constant) and r.value.value is True):
+                continue
+            tests = _enclosing_ifs(f.node, r)
+
+            def is_identity(t: ast.expr) -> bool:
+                for x in ast.walk(t):
+                    if isinstance(x, ast.Compare) and len(x.ops) == 1:
+                        a, b = x.left, x.comparators[0]
+                        if isinstance(x.ops[0], (ast.Eq, ast.NotEq)) and all(isinstance(y, ast.Call) and call_name(y) == 'id' and y.args for y in (a, b)) \
+                                and {norm(a.args[0]), norm(b.args[0])} == {sn, 'other'}:
+                            return True
+                        if isinstance(x.ops[0], (ast.Is, ast.IsNot)) and {norm(a), norm(b)} == {sn, 'other'}:
+                            return True
+                return False
+            ident = [(i, pol) for i, pol in tests if pol and is_identity(i.test)]
+            if not ident:
+                continue
+            n += 1
+            key = f'{f.qualname.split(".", 1)[1]}:identity'
+
+            def requires_skipna(t: ast.expr) -> bool:
+                if isinstance(t, ast.Name) and t.id == 'skipna':
+                    return True
+                return isinstance(t, ast.BoolOp) and isinstance(t.op, ast.And) and any(requires_skipna(v) for v in t.values)
+            if any(pol and requires_skipna(i.test) for i, pol in tests):
+                ctx.ok(R, f, r, 'the identity shortcut is taken only under skipna', key=key)
+            else:
+                ctx.bad(R, f, r, f'`{norm(ident[0][0].test)}` answers True whatever skipna is: with skipna=False a container holding NaN equals itself but not its copy', key=key)
+    ctx.require(n >= 7, 'identity shortcuts of equals')
